@@ -552,14 +552,14 @@ impl EpochDifficultyTrend {
                     let state = "decreased";
                     for index in 0..*epochs_count {
                         curr /= tau;
-                        total = total.checked_add(&curr).unwrap_or_else(|| {
-                            panic!(
+                        total = total.checked_add(&curr).ok_or_else(|| {
+                            format!(
                                 "overflow when calculate the limit of total difficulty, \
                                 total: {}, current: {}, index: {}/{}, tau: {}, \
                                 state: {}, trend: {:?}, details: {:?}",
                                 total, curr, index, epochs_count, tau, state, self, details
-                            );
-                        });
+                            )
+                        })?;
                         if total >= *actual {
                             if check_max {
                                 debug!("check total difficulty: not greater than upper limit (short-circuit)");
@@ -579,14 +579,14 @@ impl EpochDifficultyTrend {
                     let state = "increased";
                     for index in 0..*epochs_count {
                         curr = curr.saturating_mul(&tau_u256);
-                        total = total.checked_add(&curr).unwrap_or_else(|| {
-                            panic!(
+                        total = total.checked_add(&curr).ok_or_else(|| {
+                            format!(
                                 "overflow when calculate the limit of total difficulty, \
                                 total: {}, current: {}, index: {}/{}, tau: {}, \
                                 state: {}, trend: {:?}, details: {:?}",
                                 total, curr, index, epochs_count, tau, state, self, details
-                            );
-                        });
+                            )
+                        })?;
                         if total >= *actual {
                             if check_max {
                                 debug!("check total difficulty: not greater than upper limit (short-circuit)");
@@ -604,8 +604,14 @@ impl EpochDifficultyTrend {
                 }
             }
         }
+        let total_with_unaligned = total.checked_add(unaligned).ok_or_else(|| {
+            format!(
+                "overflow when calculate the limit of total difficulty, \
+                total: {total:#x}, unaligned: {unaligned:#x}, trend: {self:?}, details: {details:?}"
+            )
+        })?;
         if check_max {
-            if &total + unaligned >= *actual {
+            if total_with_unaligned >= *actual {
                 debug!("check total difficulty: not greater than upper limit (fully-calculated)");
                 Ok(())
             } else {
@@ -615,7 +621,7 @@ impl EpochDifficultyTrend {
                 );
                 Err(errmsg)
             }
-        } else if &total + unaligned <= *actual {
+        } else if total_with_unaligned <= *actual {
             debug!("check total difficulty: not less than lower limit (fully-calculated)");
             Ok(())
         } else {
@@ -976,6 +982,31 @@ fn print_difficulties_distribution(
     }
 }
 
+// The difficulty of several blocks which have the same block difficulty (for example, all
+// blocks in an epoch); the block difficulty and the blocks count are from unverified headers,
+// so the result could be overflow.
+fn checked_blocks_difficulty(block_difficulty: &U256, blocks_count: u64) -> Result<U256, String> {
+    block_difficulty
+        .checked_mul(&U256::from(blocks_count))
+        .ok_or_else(|| {
+            format!("failed since the difficulty (= {block_difficulty:#x} * {blocks_count}) is overflow")
+        })
+}
+
+// How many times are epochs switched? The epochs are from unverified headers, so the end
+// could be before the start.
+fn checked_epochs_switch_count(
+    start_epoch: EpochNumberWithFraction,
+    end_epoch: EpochNumberWithFraction,
+) -> Result<u64, String> {
+    end_epoch
+        .number()
+        .checked_sub(start_epoch.number())
+        .ok_or_else(|| {
+            format!("failed since the epoch number is decreased ([{start_epoch:#},{end_epoch:#}])")
+        })
+}
+
 pub(crate) fn verify_tau(
     start_epoch: EpochNumberWithFraction,
     start_compact_target: u32,
@@ -993,10 +1024,15 @@ pub(crate) fn verify_tau(
     } else {
         let start_block_difficulty = compact_to_difficulty(start_compact_target);
         let end_block_difficulty = compact_to_difficulty(end_compact_target);
-        let start_epoch_difficulty = start_block_difficulty * start_epoch.length();
-        let end_epoch_difficulty = end_block_difficulty * end_epoch.length();
+        let start_epoch_difficulty =
+            checked_blocks_difficulty(&start_block_difficulty, start_epoch.length())
+                .map_err(|errmsg| StatusCode::InvalidCompactTarget.with_context(errmsg))?;
+        let end_epoch_difficulty =
+            checked_blocks_difficulty(&end_block_difficulty, end_epoch.length())
+                .map_err(|errmsg| StatusCode::InvalidCompactTarget.with_context(errmsg))?;
         // How many times are epochs switched?
-        let epochs_switch_count = end_epoch.number() - start_epoch.number();
+        let epochs_switch_count = checked_epochs_switch_count(start_epoch, end_epoch)
+            .map_err(|errmsg| StatusCode::InvalidSamples.with_context(errmsg))?;
         let epoch_difficulty_trend =
             EpochDifficultyTrend::new(&start_epoch_difficulty, &end_epoch_difficulty);
         Ok(epoch_difficulty_trend.check_tau(tau, epochs_switch_count))
@@ -1025,8 +1061,17 @@ pub(crate) fn verify_total_difficulty(
     let start_block_difficulty = &compact_to_difficulty(start_compact_target);
 
     if start_epoch.number() == end_epoch.number() {
-        let total_blocks_count = end_epoch.index() - start_epoch.index();
-        let total_difficulty_calculated = start_block_difficulty * total_blocks_count;
+        let total_blocks_count = end_epoch
+            .index()
+            .checked_sub(start_epoch.index())
+            .ok_or_else(|| {
+                format!(
+                    "failed since the epoch index is decreased \
+                    during epochs ([{start_epoch:#},{end_epoch:#}])"
+                )
+            })?;
+        let total_difficulty_calculated =
+            checked_blocks_difficulty(start_block_difficulty, total_blocks_count)?;
         if total_difficulty != total_difficulty_calculated {
             let errmsg = format!(
                 "failed since total difficulty is {:#x} \
@@ -1044,10 +1089,12 @@ pub(crate) fn verify_total_difficulty(
     } else {
         let end_block_difficulty = &compact_to_difficulty(end_compact_target);
 
-        let start_epoch_difficulty = start_block_difficulty * start_epoch.length();
-        let end_epoch_difficulty = end_block_difficulty * end_epoch.length();
+        let start_epoch_difficulty =
+            checked_blocks_difficulty(start_block_difficulty, start_epoch.length())?;
+        let end_epoch_difficulty =
+            checked_blocks_difficulty(end_block_difficulty, end_epoch.length())?;
         // How many times are epochs switched?
-        let epochs_switch_count = end_epoch.number() - start_epoch.number();
+        let epochs_switch_count = checked_epochs_switch_count(start_epoch, end_epoch)?;
         let epoch_difficulty_trend =
             EpochDifficultyTrend::new(&start_epoch_difficulty, &end_epoch_difficulty);
 
@@ -1063,10 +1110,25 @@ pub(crate) fn verify_total_difficulty(
             })?;
 
         // Step-2 Check the range of total difficulty.
-        let start_epoch_blocks_count = start_epoch.length() - start_epoch.index() - 1;
+        let start_epoch_blocks_count = start_epoch
+            .length()
+            .checked_sub(start_epoch.index())
+            .and_then(|count| count.checked_sub(1))
+            .ok_or_else(|| format!("failed since the epoch {start_epoch:#} is ill-formed"))?;
         let end_epoch_blocks_count = end_epoch.index() + 1;
-        let unaligned_difficulty_calculated = start_block_difficulty * start_epoch_blocks_count
-            + end_block_difficulty * end_epoch_blocks_count;
+        let unaligned_difficulty_calculated =
+            checked_blocks_difficulty(start_block_difficulty, start_epoch_blocks_count)?
+                .checked_add(&checked_blocks_difficulty(
+                    end_block_difficulty,
+                    end_epoch_blocks_count,
+                )?)
+                .ok_or_else(|| {
+                    format!(
+                        "failed since the unaligned difficulty is overflow \
+                        (= {start_block_difficulty:#x} * {start_epoch_blocks_count} \
+                        + {end_block_difficulty:#x} * {end_epoch_blocks_count})"
+                    )
+                })?;
         if epochs_switch_count == 1 {
             if total_difficulty != unaligned_difficulty_calculated {
                 let errmsg = format!(
